@@ -63,6 +63,10 @@ package ldap
 //@   ensures valid && pa.storage != nil && ghostNewHashOK ==> ghostUpserted                                  #C07.refresh @C07
 //@   ensures !valid && pa.storage != nil && ghostFetchedOK && ghostHashMatched ==> ghostDeleted               #C07.evict @C07
 //@   ensures !valid ==> !ghostUpserted || old(ghostUpserted)                                               #C07.no-write-on-rejection @C07
+// what the function leaves alone (its ghost effects are forgotten at call sites unless stated here)
+//@   ensures pa.storage == nil ==> ghostFetchedOK == old(ghostFetchedOK) && ghostHashMatched == old(ghostHashMatched) && ghostDeleted == old(ghostDeleted) && ghostUpserted == old(ghostUpserted) && ghostNewHashOK == old(ghostNewHashOK)   #C07.no-store-no-effect @C07
+//@   ensures valid ==> ghostFetchedOK == old(ghostFetchedOK) && ghostHashMatched == old(ghostHashMatched) && ghostDeleted == old(ghostDeleted)   #C07.acceptance-neither-fetches-nor-evicts @C07
+//@   ensures !valid ==> ghostUpserted == old(ghostUpserted) && ghostNewHashOK == old(ghostNewHashOK)   #C07.rejection-writes-nothing @C07
 
 // cached hashes are written by the directory-confirmed path only
 //@ callers simplestorage.SimpleStore).UpsertSigned only updateOrDeletePasswordHash  #C07.single-writer @C07
